@@ -39,7 +39,7 @@ func main() {
 			c := genCase(rand.New(rand.NewSource(cs)), i, cs, pf)
 			emit(w, runCase(c))
 		}
-	case "prune", "desired", "neutral":
+	case "prune", "desired", "neutral", "debug":
 		pf, ok := profiles[*profile]
 		if !ok {
 			fmt.Fprintln(os.Stderr, "unknown profile", *profile)
@@ -60,6 +60,8 @@ func main() {
 				emit(w, runDesiredPair(c, sub))
 			case "neutral":
 				emit(w, runNeutralPairs(c, sub))
+			case "debug":
+				emit(w, runDebugPair(c))
 			}
 		}
 	case "conc":
